@@ -69,7 +69,7 @@ CHECKS["C14"] = {
     "rule": "case = (file: compression, dictionary, hash types, chunk sizes, writer) + request sequence. Non-trivial = sequence of length >= 2 containing a request after the last chunk's data was requested or a repeated chunk; exhaustive files: every enumerated sequence on a file with >= 1 data chunk counts (distinct by construction). Distinct by choice-sequence hash.",
     "assumptions": ["dst_size == declared (data) / stored (stored data) size, as in unzck, zck_gen_zdict and the tests", "no streaming zck_read is mixed into the request history"],
     "runs": [
-        {"bin": "asan/C14", "cases": P(500, 6000), "procs": P(8, 16), "size": 70, "shrink_budget": 300},
+        {"bin": "asan/C14", "cases": P(500, 1800), "procs": P(8, 16), "size": 70, "shrink_budget": 300},
     ],
     "extra_targets": ["asan/tools/unzck"],
 }
